@@ -1010,7 +1010,8 @@ func toUpstreamAliasesProto(in map[uint32]*message.UpstreamInfo) map[uint32]*aut
 
 func toUpstreamInfoProto(in *message.UpstreamInfo) *autogen.UpstreamInfo {
 	if in == nil {
-		return &autogen.UpstreamInfo{}
+		// the zero upstream info; an empty stream id would be rejected by the decoder
+		in = &message.UpstreamInfo{}
 	}
 	return &autogen.UpstreamInfo{
 		SessionId:    in.SessionID,
@@ -1047,7 +1048,8 @@ func toDataPointGroupsProto(in []*message.DataPointGroup) ([]*autogen.DataPointG
 
 func toDataPointGroupProto(in *message.DataPointGroup) (*autogen.DataPointGroup, error) {
 	if in == nil {
-		return &autogen.DataPointGroup{}, nil
+		// a group without data id cannot be decoded by the peer: refuse to encode it
+		return nil, errors.Errorf("invalid DataPointGroup nil: %w", errors.ErrMalformedMessage)
 	}
 	res := &autogen.DataPointGroup{
 		DataPoints: toDataPointsProto(in.DataPoints),
